@@ -8,10 +8,11 @@ Section WalkerP.
   Variable mredir : str -> str -> option verdict.
   Variable cdres : str -> str -> str.
   Variable injrisk : ctx -> list str -> bool.
+  Variable rulematch : ctx -> list str -> bool.
 
-  Notation ev := (ev simple astr mredir cdres injrisk).
-  Notation walk := (walk simple astr mredir cdres injrisk).
-  Notation build := (build simple astr mredir cdres injrisk).
+  Notation ev := (ev simple astr mredir cdres injrisk rulematch).
+  Notation walk := (walk simple astr mredir cdres injrisk rulematch).
+  Notation build := (build simple astr mredir cdres injrisk rulematch).
   Notation sequence := (sequence cdres).
   Notation rawscan := (rawscan astr).
 
@@ -330,6 +331,7 @@ Section WalkerP.
     match cmd_words t with
     | [] => [Allow]
     | _ :: _ => if mem_str (match skip_assignments (cmd_words t) with b :: _ => b | [] => [] end) TEST_COMMANDS
+                   && negb (rulematch c (skip_assignments (cmd_words t)))
             then [Allow] else [simple c (cmd_words t)]
     end.
   Definition cmd_inj (c : ctx) (t : tree) : list verdict :=
